@@ -32,24 +32,24 @@ Proof.
   set (run := fun e0 k0 => exec release_loop_body t e0 k0).
   (* all that is used of the loop body: a cancelled entry is skipped (by `continue` or by falling through), a live
      one becomes the owner, its future is resolved and release() returns *)
-  assert (Hrun : forall x f rl q k, exists oc, (oc = OContinue \/ oc = ONext) /\
-    run (mkenv (Some x) (Some f) false rl q) k =
-    if is_fcancelled (c_futs k f) then (mkenv (Some x) (Some f) false rl q, k, oc)
-    else (mkenv (Some x) (Some f) false rl q,
+  assert (Hrun : forall x f rl q cc k, exists oc, (oc = OContinue \/ oc = ONext) /\
+    run (mkenv (Some x) (Some f) false rl q cc) k =
+    if is_fcancelled (c_futs k f) then (mkenv (Some x) (Some f) false rl q cc, k, oc)
+    else (mkenv (Some x) (Some f) false rl q cc,
           mkc (c_fast k) (Some x) (c_waiters k) (upd (c_futs k) f FSet) (c_nfut k), OReturn)).
-  { intros x f rl q k. unfold run, release_loop_body. cbn.
+  { intros x f rl q cc k. unfold run, release_loop_body. cbn.
     destruct (c_futs k f); cbn; first [ exists OContinue; split; [left|]; reflexivity
                                       | exists ONext; split; [right|]; reflexivity ]. }
   clearbody run.
   induction ws as [|[x f] r IH]; intros e k Hw.
   - exists e, ONext. cbn. destruct k; cbn in *; subst. repeat split.
   - cbn [poploop handoff].
-    destruct (Hrun x f (e_rel e) (e_enq e) (set_waiters k r)) as (oc & Hoc & Hr'). rewrite Hr'. clear Hr'.
+    destruct (Hrun x f (e_rel e) (e_enq e) (e_canc e) (set_waiters k r)) as (oc & Hoc & Hr'). rewrite Hr'. clear Hr'.
     unfold set_waiters. cbn [c_futs c_fast c_owner c_nfut c_waiters].
     destruct (c_futs k f) eqn:Ef; cbn [is_fcancelled].
     + eexists _, OReturn. repeat split.
     + eexists _, OReturn. repeat split.
-    + destruct (IH (mkenv (Some x) (Some f) false (e_rel e) (e_enq e))
+    + destruct (IH (mkenv (Some x) (Some f) false (e_rel e) (e_enq e) (e_canc e))
                    (mkc (c_fast k) (c_owner k) r (c_futs k) (c_nfut k)) eq_refl) as (e' & o & Hex & Ho & Hr & Hq).
       exists e', o. cbn in Hex, Ho, Hr, Hq.
       destruct Hoc as [-> | ->]; rewrite wl_eqb_refl, Hex; repeat split; assumption.
@@ -77,11 +77,11 @@ Qed.
 Lemma exec_call_release t e k :
   exec (SCall release_entry) t e k =
     if tid_eqb_opt (c_owner k) t
-    then (mkenv (e_task e) (e_fut e) false true (e_enq e), do_release_core k, ONext)
-    else (mkenv (e_task e) (e_fut e) false (e_rel e) (e_enq e), k, ORaise ERuntime).
+    then (mkenv (e_task e) (e_fut e) false true (e_enq e) (e_canc e), do_release_core k, ONext)
+    else (mkenv (e_task e) (e_fut e) false (e_rel e) (e_enq e) (e_canc e), k, ORaise ERuntime).
 Proof.
   cbn [exec].
-  destruct (exec_release t (mkenv None None false (e_rel e) (e_enq e)) k) as (e' & o & Hex & Ho & Hr & Hq).
+  destruct (exec_release t (mkenv None None false (e_rel e) (e_enq e) (e_canc e)) k) as (e' & o & Hex & Ho & Hr & Hq).
   rewrite Hex. destruct (tid_eqb_opt (c_owner k) t).
   - cbn in Hr, Hq. destruct Ho as [-> | ->]; rewrite Hq; reflexivity.
   - reflexivity.
@@ -184,6 +184,29 @@ Qed.
 Theorem tie_locked s :
   locked_obs lock_prog s = Some (match owner s with Some _ => true | None => false end).
 Proof. unfold locked_obs. cbn. destruct (owner s); reflexivity. Qed.
+
+(* ---- C08 clause (a) on the regenerated code: acquire() called from an effectively cancelled scope on the
+   uncontended path raises the cancellation without performing its effect: owner, queue, futures untouched, nothing
+   enqueued, no release.  (On the contended path the source has no cancellation check before it enqueues: the flag is
+   not read, the task waits on its future and the cancellation is delivered to the waiting task, C03.) ---- *)
+Theorem cancelled_entry_noeffect s t : owner s = None -> waiters s = [] ->
+  exists e, exec acquire_entry t env_entry_cancelled (core s) = (e, core s, OCancelled) /\
+            e_enq e = [] /\ e_rel e = false.
+Proof.
+  intros Ho Hw. unfold acquire_entry. cbn. rewrite Ho, Hw. cbn. eexists. repeat split.
+Qed.
+
+Theorem cancelled_entry_contended_as_live s t : owner s <> None \/ waiters s <> [] ->
+  snd (fst (exec acquire_entry t env_entry_cancelled (core s))) = snd (fst (exec acquire_entry t env_entry (core s))) /\
+  snd (exec acquire_entry t env_entry_cancelled (core s)) = snd (exec acquire_entry t env_entry (core s)).
+Proof.
+  intros H. unfold acquire_entry.
+  destruct s as [fa ow ws fu nf ph mc h q]; cbn in *.
+  destruct ow as [x|]; cbn.
+  - destruct (Nat.eqb x t); cbn; split; reflexivity.
+  - destruct ws as [|w r]; cbn; [|split; reflexivity].
+    destruct H as [H | H]; congruence.
+Qed.
 
 (* ---- the machine built from the generated segments is the model ---- *)
 Theorem gstep_eq_step s o : gstep lock_prog s o = step s o.
@@ -494,6 +517,11 @@ Proof. vm_compute. repeat split. Qed.
 Example ex_check_after_effect_is_stuck :
   snd (exec (SSeq SBindTask (SSeq SSetOwnerTask SCkIf)) 1 env_entry (core (init false))) = OStuck.
 Proof. vm_compute. reflexivity. Qed.
+Example ex_check_after_effect_is_stuck_cancelled :
+  snd (exec (SSeq SBindTask (SSeq SSetOwnerTask SCkIf)) 1 env_entry_cancelled (core (init false))) = OStuck.
+Proof. vm_compute. reflexivity. Qed.
+Example ex_cancelled_entry_hyp : owner (init false) = None /\ waiters (init false) = [].
+Proof. split; reflexivity. Qed.
 Example ex_check_in_continuation_is_stuck :
   snd (exec SCkIf 1 (env_resume 1 (Some 0)) (core (init false))) = OStuck.
 Proof. vm_compute. reflexivity. Qed.
